@@ -175,7 +175,7 @@ template <class SPC> typename SPC::params schur_params(const Saddle &s, int type
 // schur_exact: type 1 == K^-1, type 2 == inverse of the block upper triangular matrix, for every mask / adjust_p
 //---------------------------------------------------------------------------
 static void sub_schur_exact() {
-    long N = vf::tier(96, 1800);
+    long N = vf::tier(384, 7200);
     for (long idx = 0; idx < N; ++idx) {
         if (!sel("schur_exact", idx)) continue;
         Rng r(vf::case_seed("schur_exact", idx)); int maskkind = idx % 4, cmode = (idx / 4) % 4, route = (idx / 16) % 3; int n = (int)r.range(6, idx % 5 == 0 ? 40 : 20); bool simplec = r.coin(0.5);
@@ -217,7 +217,7 @@ static bool same_entries(const SM &M, const LD &D, const std::vector<char> *stor
     return true;
 }
 static void sub_schur_blocks() {
-    long N = vf::tier(72, 1200);
+    long N = vf::tier(288, 4800);
     for (long idx = 0; idx < N; ++idx) {
         if (!sel("schur_blocks", idx)) continue;
         Rng r(vf::case_seed("schur_blocks", idx)); int maskkind = idx % 4, cmode = (idx / 4) % 4; int n = (int)r.range(6, 24); bool simplec = (idx / 16) % 2, approx = (idx / 32) % 2; int adjust = (int)(idx % 3);
@@ -265,7 +265,7 @@ static void sub_schur_blocks() {
 // be the documented two-step formula with those operators.  Exercises make_solver, solver::preonly, preconditioner::dummy.
 //---------------------------------------------------------------------------
 static void sub_schur_preonly() {
-    long N = vf::tier(60, 900);
+    long N = vf::tier(240, 3600);
     typedef make_solver<ExactPrec<5>, solver::preonly<SB>> EX5; typedef make_solver<ExactPrec<6>, solver::preonly<SB>> EX6; typedef make_solver<preconditioner::dummy<SB>, solver::preonly<SB>> DUM;
     for (long idx = 0; idx < N; ++idx) {
         if (!sel("schur_preonly", idx)) continue;
@@ -417,7 +417,7 @@ template <int B, int Tag, template <class, class> class CPRT> void cpr_block_vs_
 }
 
 static void sub_cpr() {
-    long N = vf::tier(90, 1500);
+    long N = vf::tier(360, 6000);
     for (long idx = 0; idx < N; ++idx) {
         if (!sel("cpr", idx)) continue;
         Rng r(vf::case_seed("cpr", idx)); int b = 2 + idx % 3, nb = (int)r.range(2, idx % 7 == 0 ? 14 : 8); int tail = (idx / 3) % 3 == 2 ? (int)r.range(1, 4) : 0; int sp = (idx / 9) % 3; bool shuffle = false;
@@ -433,7 +433,7 @@ static void sub_cpr() {
     }
 }
 static void sub_cpr_drs() {
-    long N = vf::tier(90, 1500);
+    long N = vf::tier(360, 6000);
     for (long idx = 0; idx < N; ++idx) {
         if (!sel("cpr_drs", idx)) continue;
         Rng r(vf::case_seed("cpr_drs", idx)); int b = 2 + idx % 3, nb = (int)r.range(2, 8); int tail = (idx / 3) % 3 == 2 ? (int)r.range(1, 4) : 0; int thr = (idx / 9) % 3; bool use_w = (idx / 27) % 2;
@@ -448,7 +448,7 @@ static void sub_cpr_drs() {
 }
 // active_rows with block input: the tail consists of whole blocks that are not part of the pressure system
 static void sub_cpr_active_block() {
-    long N = vf::tier(24, 300);
+    long N = vf::tier(96, 1200);
     for (long idx = 0; idx < N; ++idx) {
         if (!sel("cpr_active_block", idx)) continue;
         Rng r(vf::case_seed("cpr_active_block", idx)); int b = 2 + idx % 3, nb = (int)r.range(3, 8), act = (int)r.range(1, nb - 1);
@@ -472,7 +472,7 @@ template <class DS> void deflated_case(Case &c, const std::string &name, const v
     LD E = Zd.transpose() * Ad * Zd; long double kE = cond_inf(E); if (!(kE < 1e10L)) { vf::obs_sum("deflation_basis_rejected"); return; }
     LD Ei = E.partialPivLu().inverse(); const long double nA = ninf(Ad), zF = Zd.norm(), zmax = Zd.cwiseAbs().maxCoeff(), sq = std::sqrt((long double)n);
     try {
-        typename DS::params p; p.nvec = nv; p.vec = Z.data(); p.solver.tol = 1e-8; p.solver.maxiter = 2000;
+        typename DS::params p; p.nvec = nv; p.vec = Z.data(); p.solver.tol = 1e-8; p.solver.maxiter = 20000;   // far above what unpreconditioned CG needs on the model family (kappa <= 1e5)
         if constexpr (std::is_same<DS, deflated_solver<AMG, solver::cg<SB>>>::value) p.precond.coarse_enough = 50;
         DS S(A.tie(), p);
         // inverted coarse matrix held by the object: assembly rounding 4 n eps |Z|^T|A||Z| amplified by kappa(E), plus the GEPP inversion bound of C16
@@ -501,7 +501,7 @@ template <class DS> void deflated_case(Case &c, const std::string &name, const v
         double tr = vf::true_relres(A, f, x); long double nAx = nA * vf::norm2(x) / vf::norm2(f);
         // attainable accuracy of recursively updated residuals (Greenbaum 1997): | ||f - A x_k|| - ||r_k|| | <= c k eps ||A|| max_j ||x_j||
         double gap = (double)(64 * (it + 2) * sq * EPS * nAx);
-        c.check(std::isfinite(rs) && rs <= 1e-8 && it < 2000, name + ":convergence", "deflated solve did not converge on a model problem", J().n("iters", it).n("resid", rs));
+        c.check(std::isfinite(rs) && rs <= 1e-8 && it < 20000, name + ":convergence", "deflated solve did not converge on a model problem", J().n("iters", it).n("resid", rs));
         c.check_le(tr, rs + gap, name + ":truthful", "true relative residual of the original system exceeds the reported one");
         c.check_le(tr, 1e-7, name + ":solves-original-system", "returned vector does not solve the original system");
         vf::obs_max("max_deflated_true_residual", tr); vf::obs_sum("deflated_solves"); vf::obs_max("max_deflated_iterations", (double)it);
@@ -510,7 +510,7 @@ template <class DS> void deflated_case(Case &c, const std::string &name, const v
     } catch (const std::exception &e) { c.fail(name + ":exception", e.what()); }
 }
 static void sub_deflated() {
-    long N = vf::tier(40, 500);
+    long N = vf::tier(80, 1000);
     for (long idx = 0; idx < N; ++idx) {
         if (!sel("deflated", idx)) continue;
         Rng r(vf::case_seed("deflated", idx)); int nv = 1 + idx % 5, cfg = (idx / 5) % 4;
